@@ -76,6 +76,12 @@ impl Next<f64> for MeanAbsoluteDeviation {
             0
         };
 
+        // A constant window has no deviation at all; do not let the rounding error of
+        // the running sum (mean != value by an ulp) turn that into a tiny non-zero result.
+        if self.deque[..self.count].iter().all(|&value| value == input) {
+            return 0.0;
+        }
+
         let mean = self.sum / self.count as f64;
 
         let mut mad = 0.0;
